@@ -79,3 +79,176 @@ def make_provider(dul_socket=None, max_pdu_length=65536, store_in_file=frozenset
             pass
 
     return NoStartProvider(store_in_file, get_file_cb, dul_socket, max_pdu_length)
+
+
+# ======================================================================================
+# Scripted world: exactly one script operation is applied at the head of every loop iteration
+# (the `while not self.is_killed` test is the scheduling point), so a run is deterministic.
+#   ('seg', bytes)  bytes arrive from the peer          ('close',) peer closes (EOF)
+#   ('reset',)      connection reset (recv raises)      ('user', obj) local user calls send(obj)
+#   ('tick', secs)  the clock advances                  ('idle',)  nothing happens
+#   ('kill',)       stop requested
+# When the script is exhausted the loop is asked to stop.
+# ======================================================================================
+class Blocked(Exception):
+    """The provider made a blocking call that the world cannot satisfy."""
+
+
+class Diverged(Exception):
+    pass
+
+
+class World(object):
+    def __init__(self, script, budget=20000):
+        self.script = collections.deque(script)
+        self.pending = bytearray()
+        self.eof = False
+        self.reset = False
+        self.wire = []
+        self.log = []
+        self.clock = FakeClock(1000.0)
+        self.budget = budget
+        self.iterations = 0
+        self.prov = None
+        self.snapshots = []       # per-iteration observations
+
+    # ---- transport -----------------------------------------------------
+    def readable(self):
+        return bool(self.pending) or self.eof or self.reset
+
+    def recv(self, n):
+        self._spend()
+        if self.pending:
+            n = max(int(n), 0)
+            data = bytes(self.pending[:n])
+            del self.pending[:n]
+            if n == 0:
+                raise Blocked('recv(0) with data pending')
+            return data
+        if self.reset:
+            self.reset = False
+            self.eof = True
+            raise real_socket.error('connection reset (simulated)')
+        if self.eof:
+            return b''
+        raise Blocked('blocking recv with a silent peer')
+
+    def select(self, rl, wl, xl, timeout=None):
+        self._spend()
+        return ([s for s in rl if self.readable()], [], [])
+
+    def _spend(self):
+        self.budget -= 1
+        if self.budget < 0:
+            raise Diverged('step budget exhausted')
+
+    # ---- the per-iteration scheduling point --------------------------------
+    def iteration_head(self, prov):
+        """Returns True when the loop must stop."""
+        self._spend()
+        self.snapshot(prov)
+        self.iterations += 1
+        if not self.script:
+            return True
+        op = self.script.popleft()
+        k = op[0]
+        if k == 'seg':
+            if prov.dul_socket is not None:
+                self.pending += op[1]
+        elif k == 'close':
+            self.eof = True
+        elif k == 'reset':
+            self.reset = True
+        elif k == 'user':
+            prov.from_service_user.put(op[1]() if callable(op[1]) else op[1])
+        elif k == 'tick':
+            self.clock.now += op[1]
+        elif k == 'idle':
+            pass
+        elif k == 'kill':
+            return True
+        else:
+            raise ValueError(op)
+        return False
+
+    def snapshot(self, prov):
+        self.snapshots.append(observe_state(prov, self))
+
+
+def state_number(prov):
+    from pynetdicom2 import fsm
+    names = dict((getattr(fsm.States, 'STA_%d' % k), k) for k in range(1, 14))
+    return names.get(prov.state_machine.current_state, 0)
+
+
+def observe_state(prov, w):
+    return dict(st=state_number(prov), sock=prov.dul_socket is not None,
+                timer=prov.timer._start_time is not None, raw=len(prov.raw_pdu),
+                evq=len(prov.event), wire=len(w.wire), gen=prov.dimse_gen is not None,
+                ngiven=prov.to_service_user.qsize())
+
+
+def run_provider(script, acceptor=True, max_pdu_length=65536, store_in_file=frozenset(), get_file_cb=None,
+                 accepted_contexts=None, budget=20000):
+    """Run the real provider loop over a script.  Returns a dict describing the run."""
+    from pynetdicom2 import dulprovider, fsm
+    import queue
+    w = World(script, budget)
+    fake_mod = FakeSocketModule(w)
+    saved = (fsm.socket, dulprovider.time, dulprovider.select)
+
+    class SelectModule(object):
+        select = staticmethod(w.select)
+
+    fsm.socket = fake_mod
+    dulprovider.time = w.clock
+    dulprovider.select = SelectModule
+    try:
+        killed_flag = [False]
+
+        class ScriptedProvider(dulprovider.DULServiceProvider):
+            def start(self):
+                pass
+
+            @property
+            def is_killed(self):
+                if killed_flag[0]:
+                    return True
+                if getattr(self, '_in_loop', False):
+                    if w.iteration_head(self):
+                        killed_flag[0] = True
+                        return True
+                return False
+
+            @is_killed.setter
+            def is_killed(self, v):
+                killed_flag[0] = bool(v)
+
+        sock = FakeSocket(w) if acceptor else None
+        prov = ScriptedProvider(store_in_file, get_file_cb, sock, max_pdu_length)
+        if accepted_contexts is not None:
+            prov.accepted_contexts = accepted_contexts
+        w.prov = prov
+        prov._in_loop = True
+        outcome = 'returned'
+        exc = None
+        try:
+            prov.run()
+        except Blocked as e:
+            outcome, exc = 'blocked', repr(e)
+        except Diverged as e:
+            outcome, exc = 'diverged', repr(e)
+        except Exception as e:  # noqa
+            outcome, exc = 'crashed', e
+        prov._in_loop = False
+        given = []
+        while True:
+            try:
+                given.append(prov.to_service_user.get(False))
+            except queue.Empty:
+                break
+        return dict(outcome=outcome, exc=exc, wire=list(w.wire), log=list(w.log), given=given,
+                    final=observe_state(prov, w), snapshots=w.snapshots, iterations=w.iterations,
+                    unread=len(w.pending), script_left=len(w.script), loop_exited=prov._is_killed.is_set())
+    finally:
+        fsm.socket, dulprovider.time, dulprovider.select = saved
